@@ -838,7 +838,7 @@ var wordKeys = func() [][]byte {
 
 func genTreeCase(t *rapid.T) TreeCase {
 	c := TreeCase{RootOnly: rapid.Bool().Draw(t, "rootOnly")}
-	dist := rapid.IntRange(0, 2).Draw(t, "keyDistribution")
+	dist := rapid.SampledFrom([]int{0, 1, 1, 2}).Draw(t, "keyDistribution")
 	dense := dist == 1
 	keyGen := genSparseKey()
 	switch dist {
@@ -851,7 +851,7 @@ func genTreeCase(t *rapid.T) TreeCase {
 	}
 	weights := []int{opBegin, opInsert, opInsert, opInsert, opModify, opDelete, opDelete, opRead, opRead, opClone, opIter, opCommit, opCommit, opAbandon, opWatch, opWatch, opInsertWatch, opOneShot}
 	if dense {
-		weights = append(weights, opInsertRange, opInsertRange, opInsertRange, opDeleteRange, opDeleteRange)
+		weights = append(weights, opInsertRange, opInsertRange, opInsertRange, opDeleteRange, opDeleteRange, opClone, opIter)
 	}
 	genOp := rapid.Custom(func(t *rapid.T) Op {
 		o := Op{K: rapid.SampledFrom(weights).Draw(t, "k")}
